@@ -127,15 +127,16 @@ class Memos:
         if group == "predicates":
             return list(self.predicates)
         if group in self.GROUPS:
-            # canonical module paths: the same wrapper may be first seen under a
-            # re-export (typelib.marshaller); match by object identity.
+            # match by the final attribute name, private helper included (a repair may move a
+            # memo from the public function to a private one: static_order -> _static_order)
             want = []
             for target in self.GROUPS[group]:
                 mod, _, attr = target.rpartition(".")
-                obj = getattr(sys.modules.get(mod), attr, None)
-                for nm, o in self.items:
-                    if o is obj:
-                        want.append(nm)
+                for nm, _o in self.items:
+                    nmod, _, nattr = nm.rpartition(".")
+                    if nattr.lstrip("_") == attr.lstrip("_") and (nmod == mod or nmod.startswith(mod.rsplit(".", 1)[0])):
+                        if nm not in want:
+                            want.append(nm)
             return want
         if group in self.by_name:
             return [group]
